@@ -287,4 +287,13 @@ theorem sqrtProbe_isSome (dist : α → α → D) (q : α) (s : Sqrt α) (hc : 0
 
 end SqrtProbe
 
+/-- `resize` + assignment of every slot leaves exactly the answers. -/
+theorem vecResizeAndOverwrite_eq {β : Type} (ans nbh : List β) : vecResizeAndOverwrite ans nbh = ans := by
+  unfold vecResizeAndOverwrite
+  simp only []
+  apply List.map_snd_zip
+  simp only [List.length_append, List.length_map, List.length_take, List.length_replicate]
+  omega
+
+
 end OmplModel.NN
